@@ -114,7 +114,11 @@ def defineTable (authHandle : Nat) (auth : Bytes) (p : Pub) : List (Bool × Nat)
   let a := p.attrs
   let nameSize := digestSize p.nameAlg
   let nt := ntOf a
-  [ (decide (p.policy.length ≠ 0 ∧ p.policy.length ≠ nameSize), rcPub TPM_RC_SIZE),
+  [ -- parameter unmarshalling comes first: a TPM2B_AUTH holds at most the largest digest (64 bytes), an NV index at most MAX_NV_INDEX_SIZE
+    (decide (auth.length > 64), TPM_RC_SIZE + RC_NV_DefineSpace_auth),
+    (decide (p.size > MAX_NV_INDEX_SIZE), rcPub TPM_RC_SIZE),
+    -- then the checks of the command itself
+    (decide (p.policy.length ≠ 0 ∧ p.policy.length ≠ nameSize), rcPub TPM_RC_SIZE),
     (decide ((stripZeros auth).length > nameSize), TPM_RC_SIZE + RC_NV_DefineSpace_auth),
     (decide (nt ≠ TPM_NT_ORDINARY ∧ nt ≠ TPM_NT_COUNTER ∧ nt ≠ TPM_NT_BITS ∧ nt ≠ TPM_NT_EXTEND ∧ nt ≠ TPM_NT_PIN_PASS ∧ nt ≠ TPM_NT_PIN_FAIL),
       rcPub TPM_RC_ATTRIBUTES),
